@@ -20,6 +20,7 @@ fn main() {
     let nshards: usize = get("nshards", "1").parse().unwrap();
     let out = get("out", "/dev/stdout");
 
+    vh::raise_nofile();
     if get("loud", "0") == "0" {
         vh::quiet_panics();
     }
@@ -91,6 +92,30 @@ fn main() {
                 )
             } else {
                 vh::c01::run(seed, &tier, shard, nshards, collide)
+            }
+        }
+        "c03" => {
+            if let Some(path) = kv.get("replay") {
+                let v: serde_json::Value = serde_json::from_str(&std::fs::read_to_string(path).unwrap()).unwrap();
+                vh::c03::replay(serde_json::from_value(v["plan"].clone()).unwrap(), v["at"].clone())
+            } else {
+                vh::c03::run(seed, &tier, shard, nshards)
+            }
+        }
+        "c04" => {
+            if let Some(path) = kv.get("replay") {
+                let v: serde_json::Value = serde_json::from_str(&std::fs::read_to_string(path).unwrap()).unwrap();
+                vh::c04::replay(serde_json::from_value(v["plan"].clone()).unwrap())
+            } else {
+                vh::c04::run(seed, &tier, shard, nshards)
+            }
+        }
+        "c09" => {
+            if let Some(path) = kv.get("replay") {
+                let v: serde_json::Value = serde_json::from_str(&std::fs::read_to_string(path).unwrap()).unwrap();
+                vh::c09::replay(serde_json::from_value(v["plan"].clone()).unwrap())
+            } else {
+                vh::c09::run(seed, &tier, shard, nshards)
             }
         }
         "c07" => vh::c07::run(seed, &tier, shard, nshards),
